@@ -94,9 +94,9 @@ func runGroup(w *world.World, o *kernel.Outcome, stream string, ops []*groupOp, 
 		var evs []kernel.Event
 		for _, p := range sched.ParkedTasks() {
 			p := p
-			evs = append(evs, kernel.Event{Name: "wake:" + p.Task + "@" + p.Point, Weight: 6, Drain: true, Apply: func() { sched.Release(p.Task, "go") }})
+			evs = append(evs, kernel.Event{Name: "wake:" + p.Task + "@" + p.Point, Task: p.Task, Weight: 6, Drain: true, Apply: func() { sched.Release(p.Task, "go") }})
 			if !draining && injected < faults && strings.HasPrefix(p.Point, "store.") && byTask[p.Task].faulted == "" {
-				evs = append(evs, kernel.Event{Name: "fault:" + p.Task + "@" + p.Point, Weight: 1, Apply: func() {
+				evs = append(evs, kernel.Event{Name: "fault:" + p.Task + "@" + p.Point, Task: p.Task, Weight: 1, Apply: func() {
 					injected++
 					o.Fault("sched-" + world.FaultError)
 					sched.Release(p.Task, "fault")
@@ -107,6 +107,9 @@ func runGroup(w *world.World, o *kernel.Outcome, stream string, ops []*groupOp, 
 	}, nil)
 	if err != nil {
 		o.Infra = err.Error()
+	}
+	if sched.Strategy != "" {
+		o.Probe("schedule-strategy:" + sched.Strategy)
 	}
 	if len(sched.StuckSeen) > 0 {
 		// the code under test made one request wait for another one
